@@ -274,6 +274,16 @@ func (s *clientSocket) finishUpgradeTo(t ClientTransport, c *transport.Callbacks
 	s.transportMu.Lock()
 	defer s.transportMu.Unlock()
 
+	select {
+	case <-s.closeChan:
+		// The socket was closed while the upgrade was in progress. Completing the
+		// upgrade now would leave a transport behind that keeps answering the
+		// server's pings for a socket that is closed.
+		t.Close()
+		return
+	default:
+	}
+
 	old := s.transport
 	s.transport = t
 
